@@ -26,7 +26,9 @@ def mod_to_call_graph(ir_module) -> CallGraph:
         for instruction in routine.get_instructions():
             if isinstance(instruction, (ir.FunctionCall, ir.ProcedureCall)):
                 routine2 = instruction.callee
-                n2 = node_map[routine2]
-                cg.add_edge(n1, n2)
+                if routine2 in node_map:
+                    n2 = node_map[routine2]
+                    cg.add_edge(n1, n2)
+                # else: call via a pointer, the callee is not known here.
 
     return cg
